@@ -50,7 +50,7 @@ PROPS = {
                 'inputs; raw-parser calls refill one buffer so texts share their address) followed by a probe that is re-run alone on a fresh OS thread; '
                 'non-trivial = every case (the probe always runs on a thread with residue); distinct by hash of (history texts, probe, entry)',
         'evaluations_key': 'histories',
-        'floors': {'quick': {'histories': 3000, 'probes_after_calls_with_other_include_paths': 100, 'probes_editing_the_buffer_in_place': 100, 'probes_on_dirty_state': 2500, 'probes_with_version_residue': 200, 'probes_at_reused_address': 400},
+        'floors': {'quick': {'histories': 3000, 'probes_after_calls_with_other_include_paths': 100, 'probes_editing_the_buffer_in_place': 100, 'probes_on_dirty_state': 2500, 'probes_with_version_residue': 200, 'probes_at_reused_address': 400, 'histories_with_a_repeated_failing_call': 500},
                    'thorough': {'histories': 90000, 'probes_with_version_residue': 5000}},
         'technique': 'runtime monitor: differential re-execution of the probe call on a fresh thread (fresh thread-locals) against the call made after a recorded history; hook snapshot records the residue state the probe ran under',
         'level_text': 'Thousands of random call histories that leave real residue in the thread-local parser state (observed through the snapshot hook and listed in the evidence) are followed by a probe whose canonical result is compared with the same call on a fresh thread.',
@@ -81,7 +81,7 @@ PROPS = {
         'rule': 'one case = one source (shared tree workload plus token/byte-mutated and valid+broken concatenations); incomplete mode must not return Error::Parse, '
                 'must tile a prefix that strict parsing accepts as the same tree, must equal strict mode where strict accepts, and must ignore a junk suffix; distinct by hash of (text, grammar)',
         'evaluations_key': 'inputs',
-        'floors': {'quick': {'incomplete_trees': 3000, 'inputs_with_keywords_directive_in_dead_branch': 100, 'proper_prefix_trees': 1000, 'strict_accepted': 1200, 'junk_suffix_checked': 1200, 'prefix_reparsed': 3000},
+        'floors': {'quick': {'incomplete_trees': 3000, 'inputs_with_keywords_directive_in_dead_branch': 100, 'proper_prefix_trees': 1000, 'strict_accepted': 1200, 'junk_suffix_checked': 1200, 'junk_lexable': 500, 'prefix_reparsed': 3000},
                    'thorough': {'incomplete_trees': 80000, 'proper_prefix_trees': 25000}},
         'technique': 'runtime monitor: metamorphic/differential comparison of incomplete-mode and strict-mode executions (exact and layout-free tree skeletons) plus the tiling monitor in prefix mode',
         'level_text': 'For every generated or mutated input both modes of the real parser are run and compared; the covered prefix is re-parsed strictly to show it consists of complete descriptions.',
@@ -188,7 +188,7 @@ PROPS = {
         'rule': 'one case = one of four sub-workloads in real directory trees under the worker temp dir: (a) search rule: the same file name present in any subset of {cwd, 3 include dirs} with distinct payloads, random include-path order/subset, three naming styles, absolute paths, sub-directories, worker chdir()s into the tree; '
                 '(b) random include graphs (<= 5 files, nested, same file twice, macro-named) with defines flowing in and out, compared with the G-PP reference semantics; (c) same-line rule with 13 kinds of neighbour before/after; (d) ignore_include with non-existent targets; distinct by hash of sources + placement',
         'evaluations_key': 'cases',
-        'floors': {'quick': {'search_rule_cases': 6000, 'search_rule_agree': 6000, 'missing_file_errors': 1000, 'include_graph_cases': 8000, 'includes': 15000, 'agree_with_reference': 7000,
+        'floors': {'quick': {'search_rule_cases': 6000, 'search_rule_agree': 6000, 'search_rule_second_call_after_rewrite': 1000, 'search_rule_second_call_after_removal': 500, 'missing_file_errors': 1000, 'include_graph_cases': 8000, 'includes': 15000, 'agree_with_reference': 7000,
                              'same_line_cases': 4000, 'include_line_errors': 1200, 'ignore_include_cases': 2000},
                    'thorough': {'search_rule_cases': 150000, 'include_graph_cases': 200000}},
         'technique': 'runtime monitor with executable reference: unique payload per file copy identifies which file was spliced; reference semantics over include graphs; constructed same-line and ignore_include cases with expectation by construction; real files, real chdir',
@@ -213,7 +213,7 @@ PROPS = {
         'title': 'entry points agree',
         'rule': 'one case = one file written to the worker directory (tree workload, include + comment + macro-from-include, G-PP program, rejected program, file faults, library map, junk suffix) run through all members of the parse family for the 4 (ignore_include, allow_incomplete) values and through preprocess / preprocess_str for the 4 (strip_comments, ignore_include) values: 16 comparisons of canonical results per case; distinct by hash of (contents, kind)',
         'evaluations_key': 'comparisons',
-        'floors': {'quick': {'inputs': 11000, 'inputs_rewritten_in_place': 500, 'comparisons': 170000, 'accepted_configs': 10000, 'flag_sensitive_inputs': 1500, 'kind:file-fault': 800, 'kind:lib': 800},
+        'floors': {'quick': {'inputs': 11000, 'inputs_rewritten_in_place': 500, 'inputs_with_edge_prefix': 300, 'inputs_with_edge_suffix': 300, 'comparisons': 170000, 'accepted_configs': 10000, 'flag_sensitive_inputs': 1500, 'kind:file-fault': 800, 'kind:lib': 800},
                    'thorough': {'inputs': 280000}},
         'technique': 'runtime monitor: differential execution of the entry points that the property says must agree, on the same file with the same flags, comparing exact tree skeleton + origins + define table (with origins) or the error Debug',
         'level_text': 'Each generated file is pushed through every member of the entry-point family under every flag combination and the canonical results are compared; inputs are chosen so that swapped or dropped flags change at least one result.',
@@ -237,7 +237,7 @@ PROPS = {
         'rule': 'one case = (i) a batch of the exhaustive sweep all 248 words x 8 version specifiers x 3 name positions (enumerated completely in every run), or (ii) a program of 1-3 Verilog-1995 modules inside nested / sequential `begin_keywords regions, preceded by kept directives incl. `resetall, with one identifier at a name position replaced by a word reserved in the set in force (must be rejected) or reserved only later (must be accepted as that simple identifier), or '
                 '(iii) the tree monitor (version stack replayed over tree order, every simple identifier looked up in the vendored tables) on accepted trees of the shared workload and of every base program; distinct by hash of the mutant',
         'evaluations_key': 'cases',
-        'floors': {'quick': {'sweep_cases': 5952, 'region_programs': 4500, 'mutation_pairs': 4000, 'mutation_pairs_after_an_open_region': 200, 'reserved_word_rejected': 2500, 'later_word_accepted_as_identifier': 800, 'identifiers_checked': 150000, 'trees_scanned': 1000},
+        'floors': {'quick': {'sweep_cases': 5952, 'region_programs': 4500, 'mutation_pairs': 4000, 'mutation_pairs_after_an_open_region': 200, 'reserved_word_rejected': 2500, 'later_word_accepted_as_identifier': 800, 'identifiers_checked': 150000, 'trees_scanned': 1000, 'twin_second_side_rejected': 500},
                    'thorough': {'sweep_cases': 5952, 'mutation_pairs': 120000}},
         'technique': 'runtime monitor: keyword-set replay over every returned tree against vendored reference tables, plus mutation pairs (reserved / not-yet-reserved word at an identifier position) with expectation from the tables; exhaustive word x version x position sweep',
         'level_text': 'A monitor replays the version stack over each accepted tree and looks every identifier up in reference tables vendored from the pinned keywords.rs (structure cross-checked at load), and mutation pairs put reserved and not-yet-reserved words at name positions under all eight specifiers.',
